@@ -27,10 +27,15 @@
  */
 #include "stdoutoutput.h"
 
+#include "snoopy.h"
+
 #ifndef _POSIX_C_SOURCE
 #define _POSIX_C_SOURCE 200809L // for flockfile()
 #endif
+#include <errno.h>
 #include <stdio.h>
+#include <string.h>
+#include <sys/uio.h>
 
 
 
@@ -49,23 +54,50 @@
  */
 int snoopy_output_stdoutoutput (char const * const logMessage, __attribute__((unused)) char const * const arg)
 {
-    int charCount;
+    size_t        messageLength = strlen(logMessage);
+    size_t        recordLength  = messageLength + 1;
+    size_t        bytesWritten  = 0;
+    char          newline       = '\n';
+    int           fd;
 
     /*
-     * Keep the stream locked for the whole record (and its flush): when the host
-     * program has made stdout unbuffered, fprintf() hands a long record over in
-     * pieces and locks the stream for each piece only.
+     * Keep the stream locked for the whole record: threads logging at the same time
+     * must not get in between (nor between the program's own pending output, which
+     * goes out first, and the record).
+     *
+     * The record itself is handed to the descriptor directly and never sits in the
+     * stdio buffer: a successful exec() discards that buffer together with the
+     * process image, and a fork() in another thread copies it - the child would
+     * emit this record a second time with its own first flush.
      */
     flockfile(stdout);
-    charCount = fprintf(stdout, "%s\n", logMessage);
-
-    /*
-     * Hand the record over to the OS right away: stdout is fully buffered when it
-     * is not a terminal, and a successful exec() discards whatever is still
-     * sitting in the stdio buffer of the replaced process image.
-     */
     fflush(stdout);
+    fd = fileno(stdout);
+    while (bytesWritten < recordLength) {
+        struct iovec iov[2];
+        int          iovCount = 0;
+        ssize_t      charCount;
+
+        if (bytesWritten < messageLength) {
+            iov[iovCount].iov_base = (void *) (logMessage + bytesWritten);
+            iov[iovCount].iov_len  = messageLength - bytesWritten;
+            iovCount++;
+        }
+        iov[iovCount].iov_base = &newline;
+        iov[iovCount].iov_len  = 1;
+        iovCount++;
+
+        charCount = writev(fd, iov, iovCount);
+        if (charCount < 0) {
+            if (EINTR == errno) {
+                continue;
+            }
+            funlockfile(stdout);
+            return SNOOPY_OUTPUT_FAILURE;
+        }
+        bytesWritten += (size_t) charCount;
+    }
     funlockfile(stdout);
 
-    return charCount;
+    return (int) recordLength;
 }
